@@ -216,8 +216,21 @@ def explore(tier, seed):
                     if f and f["key"] not in seen:
                         seen.add(f["key"])
                         fails.append(f)
+    # a division-like operator by a constant applied directly to another one: (e OP1 c1) OP2 c2, every pair of small constants (divisor / multiple / coprime pairs)
+    CS = (1, 2, 3, 4, 6) if tier == "quick" else (1, 2, 3, 4, 5, 6, 8, 12)
+    for e in (("d", 0), ("+", ("*", ("d", 0), ("c", 2), True), ("c", 1))):
+        for o1 in ("floordiv", "ceildiv", "mod"):
+            for o2 in ("floordiv", "ceildiv", "mod"):
+                for c1 in CS:
+                    for c2 in CS:
+                        for as_int in ((True, False) if tier != "quick" else (True,)):
+                            cases += 1
+                            f = check_tree((o2, (o1, e, ("c", c1), as_int), ("c", c2), as_int))
+                            if f and f["key"] not in seen:
+                                seen.add(f["key"])
+                                fails.append(f)
     return {"cases": cases, "failures": fails, "exhaustive": False,
             "bound": f"{n} seeded expression trees of depth <= 3 over d0, d1, s0 and constants (+, -, neg, * by constants, floordiv/ceildiv/mod by positive "
                      f"constants, int and AffineExpr operands); build / simplify / replace_dims_and_symbols / compose / print+parse, each evaluated on "
                      f"all {len(ENVS)} assignments of a box against an independent evaluator; plus the exhaustive linear family (a*d0 + b*s0 + c) "
-                     f"floordiv/ceildiv/mod k over small coefficient grids, and sums of two division-like terms over the same (or gcd-reduced) linear numerator"}
+                     f"floordiv/ceildiv/mod k over small coefficient grids, sums of two division-like terms over the same (or gcd-reduced) linear numerator, and every nesting (e OP1 c1) OP2 c2 of two division-like operators by small constants"}
